@@ -42,62 +42,8 @@ static void init(void) {
                     "non-trivial = a keygen call whose full argument list equalled the model; distinct = distinct (seed, coin, key size, path)");
 }
 
-static const char* const HOW[] = { "created", "loaded", "decoded", "crypt-twice", "decrypted-copy" };
-
-static polyseed_data* obtain(pv_rng* rng, const pv_mseed* m, int how, unsigned coin) {
-    polyseed_data* s = NULL;
-    switch (how) {
-    case 0: {
-        uint8_t script[19]; memcpy(script, m->secret, 19); script[18] |= (uint8_t)(pv_randn(rng, 4) << 6);
-        pv_set_rand_script(script, 19);
-        pv_w->time_value = pv_m_birthday_time(m->birthday) + pv_randn(rng, (uint32_t)PV_STEP);
-        /* "only the least significant 3 bits are used": higher argument bits must not reach the seed, and so not the salt */
-        unsigned arg = m->features;
-        if (pv_randn(rng, 2)) { static const unsigned HI[] = { 0x8u, 0x10u, 0x18u, 0x20u, 0x100u, 0x400u, 0x8000u, 0x10000u, 0x80000000u, 0xFFFFFFF8u }; arg |= pv_randn(rng, 3) ? HI[pv_randn(rng, sizeof HI / sizeof *HI)] : ((uint32_t)pv_rand64(rng) & ~7u); PV_COUNT("paths.created_with_high_argument_bits", 1); }
-        int st = pv_api_create(arg, &s);
-        pv_set_rand_prng();
-        return st == POLYSEED_OK ? s : NULL; }
-    case 1: {
-        /* restoring a wallet file: now and then a damaged file is tried first (and refused); the next, good one must be unaffected
-         * (the allocator hands the block of the refused seed out again) */
-        if (pv_randn(rng, 3) == 0) {
-            int saved = pv_w->reuse_mode; pv_w->reuse_mode = 1;
-            uint8_t* bad = malloc(32); pv_m_image(m, bad); bad[pv_randn(rng, 3) ? 8 + pv_randn(rng, 24) : pv_randn(rng, 8)] ^= (uint8_t)(1u << pv_randn(rng, 8));
-            polyseed_data* t = NULL; if (pv_api_load(bad, &t) == POLYSEED_OK) pv_api_free(t); free(bad);
-            polyseed_data* s2 = pv_seed_from_model(m);
-            pv_w->reuse_mode = saved; if (!saved && pv_w->cache_ptr) { free(pv_w->cache_base); pv_w->cache_ptr = NULL; }
-            PV_COUNT("paths.loaded_after_a_refused_image", 1);
-            return s2;
-        }
-        return pv_seed_from_model(m); }
-    case 2: {
-        pv_mlang* L; do { L = &pv_langs[pv_randn(rng, (uint32_t)pv_nlangs)]; } while (!L->lib);
-        char ph[2048]; pv_m_encode(m, L, coin, ph, sizeof ph);
-        char* in = pv_exact_str(ph);
-        int st = pv_api_decode_explicit(in, coin, L->lib, &s);
-        free(in);
-        return st == POLYSEED_OK ? s : NULL; }
-    case 3: {
-        s = pv_seed_from_model(m);
-        /* encrypted and decrypted while a different set of user features is enabled: the seed must keep its own bits */
-        if (s) { bool other = pv_randn(rng, 2); if (other) { polyseed_enable_features(pv_randn(rng, 7)); PV_COUNT("paths.crypt_under_a_different_feature_mask", 1); }
-                 /* the password operation cannot report failure: a refused allocation (should it make any) must not change what it does */
-                 bool refuse = pv_randn(rng, 3) == 0; if (refuse) { pv_arm_some_request(); PV_COUNT("paths.crypt_with_failing_allocator", 1); }
-                 pv_api_crypt(s, "p\xc3\xa4ss"); pv_w->fail_countdown = 0; if (other) polyseed_enable_features(pv_randn(rng, 7)); pv_api_crypt(s, "p\xc3\xa4ss"); if (other) polyseed_enable_features(7); }
-        return s; }
-    default: {       /* an encrypted copy is stored, loaded and decrypted */
-        s = pv_seed_from_model(m);
-        if (!s) return NULL;
-        const char* pw2 = pv_randn(rng, 2) ? "other" : "\xc3\xb6ther \xef\xac\x81";       /* half of the time a password that normalisation changes */
-        pv_api_crypt(s, pw2);
-        uint8_t* img = malloc(32); pv_api_store(s, img); pv_api_free(s); s = NULL;
-        int st = pv_api_load(img, &s); free(img);
-        if (st != POLYSEED_OK) return NULL;
-        if (pv_randn(rng, 3) == 0) { pv_arm_some_request(); PV_COUNT("paths.crypt_with_failing_allocator", 1); }
-        pv_api_crypt(s, pw2); pv_w->fail_countdown = 0;
-        return s; }
-    }
-}
+#define HOW pv_path_name
+#define obtain pv_seed_by_path
 
 static uint64_t n_keygen(void) { return pv_scaled(200000, 20000000); }
 static void run_keygen(uint64_t idx, pv_rng* rng) {
